@@ -98,6 +98,12 @@ def par(s):
 class MTrans(Full):
     """translate.Full plus: self as a state record, monadic statements, fuel loops."""
 
+    mon = "F"
+    cache_blk = "cacheBlk"
+
+    def cache_modify(self, fn):
+        return f"(cacheModify {fn})"
+
     def __init__(self, items):
         super().__init__(items)
         self.mdone = {}
@@ -354,7 +360,7 @@ class MStmts:
 
     def reread_blocks(self, blocks, rest):
         for n in reversed(blocks):
-            rest = self.bind("cacheBlk", lname(n), rest)
+            rest = self.bind(self.cache_blk, lname(n), rest)
         return rest
 
     # ------------------------------------------------------------------ classification of expressions
@@ -549,8 +555,8 @@ class MStmts:
         ev = self.tmp()
         out.append(f"| Res.err {ev} => " + self.render_tree(self.resolve(arms, ("err", None, ev), env, ctx), leaf))
         pm = self.tmp()
-        out.append(f"| Res.panic {pm} => F.panic {pm}")
-        out.append("| Res.diverged => F.diverge")
+        out.append(f"| Res.panic {pm} => {self.mon}.panic {pm}")
+        out.append(f"| Res.diverged => {self.mon}.diverge")
         return f"(match {rlean} with " + " ".join(out) + ")"
 
 
@@ -568,7 +574,7 @@ class MFlow:
                 if not n:
                     return
                 k = n[0]
-                if k in ("try", "return", "break", "continue", "loop", "while", "for"):
+                if k in ("try", "return", "break", "continue", "loop", "while", "for", "assert"):
                     found[0] = True
                     return
                 if k == "macro" and n[1] in ("panic", "unreachable", "todo", "unimplemented"):
@@ -640,7 +646,7 @@ class MFlow:
                 raise ShapeError(f"{ctx.what}: Ok(..) in a function that does not return a Result")
             return ctx.ret_ok(self.mvalue(e[2][0], env, ctx))
         if is_err_ctor(e):
-            return f"(F.fail {self.err_of(e[2][0], env, ctx)})"
+            return f"({self.mon}.fail {self.err_of(e[2][0], env, ctx)})"
         cls = self.mclass(e, env, ctx)
         if cls[0] in ("m", "mi"):
             if ctx.loop is None:
@@ -649,9 +655,9 @@ class MFlow:
             return self.bind(cls[1], t, ctx.ret_ok("()" if cls[3] else t))
         if cls[0] == "res":
             if ctx.loop is None:
-                return f"(F.lift {cls[1]})"
+                return f"({self.mon}.lift {cls[1]})"
             t = self.tmp()
-            return self.bind(f"(F.lift {cls[1]})", t, ctx.ret_ok(t))
+            return self.bind(f"({self.mon}.lift {cls[1]})", t, ctx.ret_ok(t))
         if k in ("if", "iflet", "match"):
             return self.branching(e, env, ctx, lambda b, envb: self.mreturn_block(b, envb, ctx))
         if k == "block":
@@ -677,7 +683,7 @@ class MFlow:
             raise ShapeError(f"{ctx.what}: panic! without a literal message")
         msg = toks[0].v.split("{")[0].rstrip()
         msg = msg.replace("\\", "\\\\").replace('"', '\\"')
-        return f'(F.panic "{msg}")'
+        return f'({self.mon}.panic "{msg}")'
 
     # ------------------------------------------------------------------ branching constructs
     def branching(self, e, env, ctx, leaf):
@@ -704,7 +710,7 @@ class MFlow:
         cls = self.mclass(scrut, env, ctx)
         if cls[0] == "m":
             r = self.tmp()
-            return self.bind(f"(F.attempt {cls[1]})", r, self.outcome_cases(r, cls[2], arms, env, ctx, leaf))
+            return self.bind(f"({self.mon}.attempt {cls[1]})", r, self.outcome_cases(r, cls[2], arms, env, ctx, leaf))
         if cls[0] == "res":
             return self.outcome_cases(cls[1], cls[2], arms, env, ctx, leaf)
         if cls[0] == "mi":
@@ -819,6 +825,10 @@ class MFlow:
             if e[1] == "panic":
                 return self.mpanic(e, ctx)
             raise ShapeError(f"{ctx.what}: macro `{e[1]}!` is outside the subset")
+        if e[0] == "assert":
+            c = self.tr(e[1], env, ctx)
+            msg = ("assertion failed: " + e[2]).replace("\\", "\\\\").replace('"', '\\"')
+            return f'(if {self.as_prop(c, ctx)} then {cont(env)} else {self.mon}.panic "{msg}")'
         if e[0] == "return":
             return self.mreturn(e[1], env, ctx)
         if e[0] == "break":
@@ -840,7 +850,7 @@ class MFlow:
             if cls[0] in ("m", "mi"):
                 return self.bind(cls[1], "_", cont(env))
             if cls[0] == "res":
-                return self.bind(f"(F.lift {cls[1]})", "_", cont(env))
+                return self.bind(f"({self.mon}.lift {cls[1]})", "_", cont(env))
             raise ShapeError(f"{ctx.what}: `?` on a pure value as a statement is outside the subset")
         if e[0] in ("if", "iflet", "match"):
             return self.st_mbranch(e, env, ctx, cont)
@@ -901,10 +911,10 @@ class MFlow:
         if init[0] == "try":
             if cls[0] in ("m", "mi"):
                 if cls[3]:
-                    return self.bind(cls[1], "_", self.bind("cacheBlk", ln, cont(with_block())))
+                    return self.bind(cls[1], "_", self.bind(self.cache_blk, ln, cont(with_block())))
                 return self.bind(cls[1], ln, cont(with_val(cls[2])))
             if cls[0] == "res":
-                return self.bind(f"(F.lift {cls[1]})", ln, cont(with_val(cls[2])))
+                return self.bind(f"({self.mon}.lift {cls[1]})", ln, cont(with_val(cls[2])))
             v = self.infallible_conversion(core, env, ctx)
             if v is not None:
                 return f"(let {ln} := {self.value(v, ctx)}; {cont(with_val(v.ty))})"
@@ -912,10 +922,10 @@ class MFlow:
         if cls[0] == "m":
             env2 = dict(env)
             env2[name] = ("res", ln, cls[2])
-            return self.bind(f"(F.attempt {cls[1]})", ln, cont(env2))
+            return self.bind(f"({self.mon}.attempt {cls[1]})", ln, cont(env2))
         if cls[0] == "mi":
             if cls[3]:
-                return self.bind(cls[1], "_", self.bind("cacheBlk", ln, cont(with_block())))
+                return self.bind(cls[1], "_", self.bind(self.cache_blk, ln, cont(with_block())))
             return self.bind(cls[1], ln, cont(with_val(cls[2])))
         if cls[0] == "res":
             raise ShapeError(f"{ctx.what}: copying an outcome into another variable is outside the subset")
@@ -930,7 +940,7 @@ class MFlow:
                     raise ShapeError(f"{ctx.what}: expect needs a literal message")
                 msg = init[3][0][1]
             msg = msg.replace("\\", "\\\\").replace('"', '\\"')
-            return f'(match {ov.lean} with | some {ln} => {cont(with_val(ot[1]))} | none => F.panic "{msg}")'
+            return f'(match {ov.lean} with | some {ln} => {cont(with_val(ot[1]))} | none => {self.mon}.panic "{msg}")'
         if not self.is_effectful(init, env, ctx):
             try:
                 probe = self.tr(init, dict(env), ctx)
@@ -988,7 +998,7 @@ class MFlow:
                 return self.bind(cls[1], t, kx(t, cls[2], env))
             if cls[0] == "res":
                 t = self.tmp()
-                return self.bind(f"(F.lift {cls[1]})", t, kx(t, cls[2], env))
+                return self.bind(f"({self.mon}.lift {cls[1]})", t, kx(t, cls[2], env))
             v = self.infallible_conversion(e[1], env, ctx)
             if v is not None:
                 return kx(self.arg(v, ctx), v.ty, env)
@@ -1073,7 +1083,7 @@ class MFlow:
         env2 = dict(env)
         env2[n] = ("val", ln, ("bytes", 512))
         v = self.run([st], env2, ctx, lambda env3: V(env3[n][1], ("bytes", 512)))
-        return self.bind(f"(cacheModify fun {ln} => {v.lean})", "_", cont(env))
+        return self.bind(self.cache_modify(f"fun {ln} => {v.lean}"), "_", cont(env))
 
 
 import copy
@@ -1190,7 +1200,7 @@ class MLoops:
         if self.modifies_self(node, env, ctx) and ctx.record is not None:
             btext = self.refetch(ctx, btext)
         pat = "_" if not names else (env[names[0]][1] if len(names) == 1 else "(" + ", ".join(env[n][1] for n in names) + ")")
-        header = f"def {name}{binders} : Nat → ({sig}) → F ({out_ty})"
+        header = f"def {name}{binders} : Nat → ({sig}) → {self.mon} ({out_ty})"
         info.aux[idx] = (header, (pat, btext), len(info.aux_done))
         info.aux_done.append(idx)
         call = f"({name}{args} fuel {self.tuple_m(names, env)})"
@@ -1268,10 +1278,10 @@ class MFns:
             if lean.startswith("(") and lean.endswith(")") and _balanced(lean[1:-1]):
                 lean = lean[1:-1]
             info.body = self.resolve_placeholders(lean, what)
-            info.doc = doc + ", as a function of the volume record"
+            info.doc = doc + (", as a function of the volume record" if decl.impl == "FatVolume" else ", as a function of the state")
         else:
             info.ret, info.fallible, info.blockref = self.ret_info(decl, ctx)
-            info.modifies = self.modifies_self(body, env, ctx) if self_kind and "mut" in self_kind else False
+            info.modifies = self.modifies_self(body, env, ctx) if self.self_is_mut(decl, self_kind) else False
             text = self.mrun(list(body[1]), env, ctx, lambda env2: self.mreturn(body[2], env2, ctx))
             if ctx.record is not None and self.mentions_self(body):
                 text = self.refetch(ctx, text)
@@ -1285,6 +1295,9 @@ class MFns:
         self.mdone[key] = info
         self.morder.append(key)
         return info
+
+    def self_is_mut(self, decl, self_kind):
+        return bool(self_kind) and "mut" in self_kind
 
     def lean_type(self, t, what):
         t2 = self.res(t) if t[0] != "record" and t[0] != "fuelnat" else t
@@ -1440,10 +1453,10 @@ def render_m(T):
         ps = "".join(f" ({n} : {T.lean_type(t, info.name)})" for n, t in info.params)
         for header, (pat, body), _rank in sorted(info.aux, key=lambda a: a[2]):
             lines.append(f"/-- A loop of {info.doc}; `fuel` bounds the number of iterations. -/\n{header}\n"
-                         f"  | 0, _ => F.diverge\n  | fuel + 1, {pat} =>\n    {pretty_m(body, 4)}\n")
+                         f"  | 0, _ => {T.mon}.diverge\n  | fuel + 1, {pat} =>\n    {pretty_m(body, 4)}\n")
         rt = T.lean_type(info.ret, info.name)
         if not info.pure:
-            rt = f"F ({rt})" if " " in rt else f"F {rt}"
+            rt = f"{T.mon} ({rt})" if " " in rt else f"{T.mon} {rt}"
         lines.append(f"/-- {info.doc}. -/\ndef {info.name}{ps} : {rt} :=\n  {pretty_m(info.body) if not info.pure else pretty(info.body)}\n")
     lines.append("end Sdmmc.Gen.FunsM\n")
     return "\n".join(lines)
